@@ -1,7 +1,7 @@
 (* C13 -- property theorems only.  Proofs live in C13/Proofs*.v. *)
 From Coq Require Import NArith List Sorted.
 From DV Require Import Base.Outcome Base.Bytes Base.Lex Base.Names C11.Sha C13.Gen C13.Model
-  C13.ProofsBitmap C13.ProofsNames.
+  C13.ProofsBitmap C13.ProofsNames C13.ProofsNsec2 C13.ProofsDeny.
 Import ListNotations.
 Local Open Scope N_scope.
 
@@ -14,6 +14,53 @@ Theorem C13_bitmap_wire_layout : forall ts, Forall (fun x => x < 65536) ts ->
   bm_wire_ok None (bm_finalize (bm_adds [] ts)).
 Proof. exact bitmap_wire_layout. Qed.
 Print Assumptions C13_bitmap_wire_layout.
+
+Theorem C13_nsec_one_per_auth_name : forall apex z dk out,
+  zone_sorted z -> generate_nsecs apex dk z = Ok out ->
+  (forall n, auth_name apex z n <-> exists r, In r out /\ name_eqb (n_owner r) n = true) /\
+  StronglySorted (fun a b => name_eqb (n_owner a) (n_owner b) = false) out.
+Proof.
+  intros apex z dk out Hs Ho. split; [exact (nsec_owners apex z Hs dk out Ho)|].
+  pose proof (nsec_sorted apex z Hs dk out Ho) as S.
+  induction S as [|a l S IH F]; constructor; [exact IH|].
+  eapply Forall_impl; [|exact F]. intros b Hb. apply ProofsGroups.lt_not_eqb. exact Hb.
+Qed.
+Print Assumptions C13_nsec_one_per_auth_name.
+
+Theorem C13_nsec_sorted_canonical : forall apex z dk out,
+  zone_sorted z -> generate_nsecs apex dk z = Ok out ->
+  StronglySorted (fun a b => name_cmp (n_owner a) (n_owner b) = Lt) out.
+Proof. intros apex z dk out Hs Ho. exact (nsec_sorted apex z Hs dk out Ho). Qed.
+Print Assumptions C13_nsec_sorted_canonical.
+
+Theorem C13_nsec_closed : forall apex z dk out,
+  generate_nsecs apex dk z = Ok out -> out <> [] ->
+  map n_next out = tl (map n_owner out) ++ [apex].
+Proof. exact nsec_closed. Qed.
+Print Assumptions C13_nsec_closed.
+
+Theorem C13_nsec_bitmap_exact : forall apex z dk out,
+  zone_sorted z -> types_ok z -> generate_nsecs apex dk z = Ok out ->
+  forall r, In r out -> forall t,
+  exists b, bm_contains (n_types r) t = Ok b /\
+    (b = true <->
+     t = 46 \/ t = 47 \/ (dk = true /\ name_eqb (n_owner r) apex = true /\ t = 48) \/
+     (has_type z (n_owner r) t /\ (deleg apex z (n_owner r) -> t = 2 \/ t = 43))).
+Proof. intros apex z dk out Hs Ht Ho. exact (nsec_bitmap_exact apex z Hs dk out Ho Ht). Qed.
+Print Assumptions C13_nsec_bitmap_exact.
+
+Theorem C13_nsec_denies : forall apex z dk out,
+  zone_sorted z -> types_ok z -> generate_nsecs apex dk z = Ok out -> owner_in z apex ->
+  forall n t, in_zone apex n -> ~ has_type z n t -> t <> 46 -> t <> 47 ->
+    ~ (dk = true /\ name_eqb n apex = true /\ t = 48) ->
+    exists r, In r out /\
+      ((name_eqb (n_owner r) n = true /\ bm_contains (n_types r) t = Ok false) \/ nsec_covers r n).
+Proof. exact nsec_denies. Qed.
+Print Assumptions C13_nsec_denies.
+
+Theorem C13_nsec_no_panic : forall apex dk z, no_panic (generate_nsecs apex dk z).
+Proof. exact nsec_no_panic. Qed.
+Print Assumptions C13_nsec_no_panic.
 
 Theorem C13_nsec3_hash_is_rfc5155 : forall n iterations salt,
   c13_hash n iterations salt = rfc5155_IH sha1 salt (wire_abs (canon n)) (N.to_nat iterations) /\
